@@ -18,17 +18,22 @@ import c14
 from c14 import s_, RES, CB
 
 PID = "C15"
+GENS = c14.GENS
 LEVEL_TEXT = ("Machine-checked proof (Coq) that in the model of Transport.run's dispatch an unauthenticated server "
               "never consults the application, never creates a channel, never delivers channel traffic and never "
               "runs a connection-layer handler for any message type 80..100 — per step from every state, and over "
               "every history of auth-layer and connection-layer packets that does not end authenticated (induction "
               "over packet lists).  Tied to transport.py / auth_handler.py by a differential run of the model "
               "(vm_compute) against real loopback server transports driven by a raw peer every run.")
-LEVEL_NOTE = ("Trusted: Coq kernel + vm_compute; hand-written model (tables {80,81,82,90,91,92} / {93..100} and bound 79 "
-              "are constants of the model, checked against the source only by the correspondence run); the handlers' "
+LEVEL_NOTE = ("Trusted: Coq kernel + vm_compute; hand-written model whose tables (Transport._handler_table, "
+              "_channel_handler_table), bound HIGHEST_USERAUTH_MESSAGE_ID, message numbers and the shape of the "
+              "_ensure_authed guard (no try/except, no return other than the reply after it) are regenerated from the "
+              "source each run by the fail-closed translator gen/c14.py; UTF-8 validity of the channel kind is an "
+              "oracle bit of the packet; the handlers' "
               "behaviour once allowed is abstract; types 81/82/91/92 pre-auth kill the transport with IndexError and "
               "93..100 end the run loop (availability: C38), 83..89 are C12's; thread timing outside the model.")
-TECHNIQUE = "Coq proof (case analysis + induction over packet lists) + vm_compute differential correspondence on real transports"
+TECHNIQUE = ("Coq proof (case analysis + induction over packet lists) over source-generated tables + vm_compute "
+             "differential correspondence on real transports")
 
 HANDLER_TYPES = (80, 81, 82, 90, 91, 92)
 CHANNEL_TYPES = tuple(range(93, 101))
@@ -259,6 +264,8 @@ def gen_conn(rng, ptype, authed_hint=False, chans=()):
         payload = s_(name) + bytes([rng.randrange(2)]) + s_(b"127.0.0.1") + struct.pack(">I", rng.randrange(65536))
         if rng.random() < 0.2:
             payload = payload[:rng.randrange(len(payload) + 1)]
+        if rng.random() < 0.15:
+            payload = s_(b"\xfftcpip") + payload     # malformed prefix before a well-formed request
         if authed_hint:
             payload = s_(name or b"x") + b"\x01" + s_(b"127.0.0.1") + struct.pack(">I", 2222)
         return payload, 0
@@ -271,8 +278,12 @@ def gen_conn(rng, ptype, authed_hint=False, chans=()):
             payload += s_(b"127.0.0.1") + struct.pack(">I", 22) + s_(b"127.0.0.1") + struct.pack(">I", 4000)
         if not authed_hint and rng.random() < 0.2:
             payload = payload[:rng.randrange(len(payload) + 1)]
+        if not authed_hint and rng.random() < 0.25:
+            # malformed prefix: a first string that is not valid UTF-8, followed by a well-formed open
+            junk = rng.choice([b"\xff", b"\xc3", b"sess\xe2\x28ion", b"\x80abc", b"\xf0\x9f"])
+            payload = s_(junk) + rng.choice([b"", s_(b"session")]) + struct.pack(">III", chanid, 2 ** 21, 2 ** 15)
         m = Message(payload)
-        m.get_text()
+        m.get_binary()
         return payload, m.get_int()
     if ptype in CHANNEL_TYPES:
         chanid = rng.choice(list(chans) + [0, 1, 5, 2 ** 32 - 1, rng.randrange(2 ** 32)]) if not authed_hint \
@@ -285,6 +296,16 @@ def gen_conn(rng, ptype, authed_hint=False, chans=()):
         return payload, Message(payload).get_int()
     payload = bytes(rng.randrange(256) for _ in range(rng.randrange(0, 16)))
     return payload, Message(payload).get_int() if ptype in (91, 92) else 0
+
+
+def kind_ok(payload):
+    """Is the first string of the payload (what _ensure_authed reads as the channel kind) valid UTF-8?"""
+    from paramiko.message import Message
+    try:
+        Message(payload).get_binary().decode("utf-8")
+        return True
+    except UnicodeDecodeError:
+        return False
 
 
 def gen_auth(rng, last=False, success_bias=0.0):
@@ -344,7 +365,7 @@ def gen_session(rng):
         env = c14.gen_env(rng, "mixed")
         app_ok = rng.random() < 0.7
         payload, chanid = gen_conn(rng, pt, authed_hint=control)
-        steps.append((pt, payload, env, ("PConn", pt, chanid, app_ok), app_ok))
+        steps.append((pt, payload, env, ("PConn", pt, chanid, app_ok, kind_ok(payload)), app_ok))
         if rng.random() < 0.25 and not lastp:
             p, pl, env2, mm = gen_auth(rng)
             steps.append((p, pl, env2, ("PAuth", mm), True))
@@ -489,7 +510,7 @@ def run(ctx):
                 "step counts when it was sent to a live server and is distinct by (packet, oracle, state)")
     ctx.trusted += ["model coq/Model/C15.v + C14.v hand-written; tied to transport.py/auth_handler.py by this differential run",
                     "quiescence detection (server back in read_message) by a counting packetizer_class"]
-    ctx.prove()
+    ctx.prove(GENS)
     c14.gss_witness(ctx)        # the shared auth model is of the repaired gssapi paths: name the input if they regress
     Session = make_classes()
     hostkey = paramiko.RSAKey.from_private_key_file(os.path.join(ctx.repo, "tests", "_support", "rsa.key"))
@@ -523,8 +544,8 @@ def run(ctx):
             if len(ctx.samples) < 3:
                 ctx.sample({"steps": [repr(s[3]) for s in steps], "impl": canon[:80]})
         gss_swap_sessions(ctx, mk, hostkey, stats)
-    bad = ctx.model_mismatches("run_loop", "(list (packet * env))", cases,
-                               imports="From PV Require Import C39 C14 C15.", shard=60)
+    bad = c14.guarded_mismatches(ctx, "run_loop", "(list (packet * env))", cases, shard=60,
+                                 imports="From PV Require Import C39 C14 C15.")
     for i in bad[:3]:
         ctx.disagree("server transport behaviour differs from model (run_loop)", case=case_repr(kept[i][0]),
                      impl=kept[i][1])
@@ -551,8 +572,8 @@ def replay(ctx, rep):
         if 80 <= p <= 100:
             m = Message(payload)
             if p == 90:
-                m.get_text()
-            pk = ("PConn", p, m.get_int(), s["app_ok"])
+                m.get_binary()
+            pk = ("PConn", p, m.get_int(), s["app_ok"], kind_ok(payload))
         else:
             pk = ("PAuth", None)
         steps.append((p, payload, s["env"], pk, s["app_ok"]))
